@@ -504,9 +504,25 @@ Qed.
 Lemma byteZ_small k : (k < 256)%nat -> byteZ (Z.of_nat k) = N.of_nat k.
 Proof. unfold byteZ. intros H. lia. Qed.
 
+(* The offset field of the request is ONE byte (push_unsigned_int keeps offset & 0xff), and
+   records may be up to 260 bytes long.  For records of at most 256 bytes every offset
+   below the record length fits.  For longer records the offset stays <= 255 because of the
+   retry budget and the chunk sizes, provided the device's limit is what refuses reads (only
+   transient codes are injected: plan_ok): reads are refused first (each costs an iteration
+   and shrinks max_req_len by 4), then every accepted chunk but the last has exactly
+   max_req_len = m bytes, so the k-th offset is 5 + m*k, with
+   4*(iterations left + k) <= 56 + m.  m = 20: 5+20k < 260 gives <= 245; m = 16: <= 245;
+   m <= 12: k <= 17 gives <= 209. *)
+Definition full_inv (n : nat) (maxlen : Z) (la lrec : nat) (s : sdr_state) : Prop :=
+  plan_ok s /\ (lrec <= 260)%nat /\
+  (maxlen = 4 \/ maxlen = 8 \/ maxlen = 12 \/ maxlen = 16 \/ maxlen = 20)%Z /\
+  exists k : nat, Z.of_nat la = (5 + maxlen * Z.of_nat k)%Z /\
+    ((0 < k)%nat -> Z.to_N maxlen <= s_limit s) /\
+    (4 * (Z.of_nat n + Z.of_nat k) <= 56 + maxlen)%Z.
+
 Lemma data_loop_run n st resv rid rec nx0 : forall maxlen next acc s tr x s' tr',
   lookup (recs_of st s) (w16 rid) = Some (rec, nx0) ->
-  (length rec <= 256)%nat ->
+  (length rec <= 256)%nat \/ full_inv n maxlen (length acc) (length rec) s ->
   acc = firstn (length acc) rec -> (length acc <= length rec)%nat -> (length acc <= 255)%nat ->
   (0 < maxlen <= 20)%Z ->
   run (data_loop n st resv rid (Z.of_nat (length rec)) maxlen next acc) sdr_dev s tr = (x, s', tr') ->
@@ -517,7 +533,7 @@ Lemma data_loop_run n st resv rid rec nx0 : forall maxlen next acc s tr x s' tr'
   | Err _ => True
   end.
 Proof.
-  induction n as [|n IH]; intros maxlen next acc s tr x s' tr' L R256 Hacc Hle H255 Hmax H; cbn [data_loop] in H.
+  induction n as [|n IH]; intros maxlen next acc s tr x s' tr' L Hcase Hacc Hle H255 Hmax H; cbn [data_loop] in H.
   - cbn in H. inv H. split; [apply inv_refl | exact I].
   - set (off := Z.of_nat (length acc)) in *.
     set (len := if (off + maxlen >? Z.of_nat (length rec))%Z then (Z.of_nat (length rec) - off)%Z else maxlen) in *.
@@ -528,6 +544,7 @@ Proof.
     apply chunk_run in Rc. destruct Rc as (I1 & X1).
     assert (byteZ off = N.of_nat (length acc)) as Boff by (apply byteZ_small; lia).
     assert (byteZ len = Z.to_N len) as Blen by (unfold byteZ; lia).
+    pose proof (inv_limit _ _ I1) as Hl1.
     destruct x1 as [[nx d]|e].
     + cbn [run] in H. destruct X1 as (rec' & nx' & L' & -> & -> & Hlim).
       rewrite L in L'. inv L'. rewrite Boff, Blen in *. unfold slice in H. rewrite !Nnat.Nat2N.id in H.
@@ -538,25 +555,41 @@ Proof.
       destruct (Z.of_nat (length (firstn (length acc + N.to_nat (Z.to_N len)) rec')) >=? Z.of_nat (length rec'))%Z eqn:G.
       * cbn in H. inv H. split; [exact I1|]. split; [|reflexivity].
         apply firstn_all2. rewrite firstn_length in G. lia.
-      * apply IH in H; try assumption.
+      * rewrite firstn_length in G.
+        assert (len = maxlen /\ (length acc + N.to_nat (Z.to_N len) < length rec')%nat) as (Elen & Hlt).
+        { unfold len in *. destruct (off + maxlen >? Z.of_nat (length rec'))%Z eqn:G2; unfold off in *; lia. }
+        assert (length (firstn (length acc + N.to_nat (Z.to_N len)) rec') = (length acc + N.to_nat (Z.to_N len))%nat) as Elen'
+          by (rewrite firstn_length; lia).
+        assert ((length rec' <= 256)%nat \/
+                full_inv n maxlen (length (firstn (length acc + N.to_nat (Z.to_N len)) rec')) (length rec') s1) as Hcase'.
+        { destruct Hcase as [R256|(P & R260 & Hm & k & Ek & Hk & Hb)]; [left; exact R256|]. right.
+          split; [apply I1; exact P|]. split; [exact R260|]. split; [exact Hm|].
+          exists (S k). rewrite Elen'. split; [|split]; [fold off in Ek; lia | intros _; rewrite Hl1; lia | lia]. }
+        apply IH in H; try assumption.
         -- destruct H as (I2 & X2). split; [eapply inv_trans; eauto|].
            destruct x as [[nx d]|e]; [exact X2|]. destruct e; auto. intros P Lm. apply X2; [apply I1; exact P|].
-           rewrite (inv_limit _ _ I1). exact Lm.
+           rewrite Hl1. exact Lm.
         -- rewrite (inv_recs st _ _ I1). exact L.
         -- symmetry. apply firstn_idem.
-        -- rewrite firstn_length. lia.
-        -- rewrite firstn_length in *. lia.
-    + assert (forall e0, run (Raise e0 : prog (option (N * list N))) sdr_dev s1 tr1 = (Err e0, s1, tr1)) as RR by reflexivity.
-      destruct e as [| |cc| | | | | | | | |k0];
+        -- rewrite Elen'. lia.
+        -- rewrite Elen'. destruct Hcase' as [R256|(P & R260 & Hm & k & Ek & Hk & Hb)]; [lia|].
+           rewrite Elen' in Ek. destruct Hm as [Hm|[Hm|[Hm|[Hm|Hm]]]]; rewrite Hm in *; lia.
+    + destruct e as [| |cc| | | | | | | | |k0];
         try (cbn [run] in H; inv H; split; [exact I1 | first [exact I | contradiction]]).
       * destruct (cc =? CC_CANT_RET_NUM_REQ_BYTES) eqn:Eca.
         -- cbn [run] in H. apply N.eqb_eq in Eca. subst cc.
            destruct (maxlen - 4 <=? 0)%Z eqn:G.
            ++ cbn in H. inv H. split; [exact I1|]. intros P Lm. specialize (X1 eq_refl P). rewrite Blen in X1. lia.
-           ++ apply IH in H; try assumption; try lia.
+           ++ assert ((length rec <= 256)%nat \/ full_inv n (maxlen - 4) (length acc) (length rec) s1) as Hcase'.
+              { destruct Hcase as [R256|(P & R260 & Hm & k & Ek & Hk & Hb)]; [left; exact R256|]. right.
+                specialize (X1 eq_refl P). rewrite Blen in X1.
+                assert (k = 0%nat) as -> by (destruct k; [reflexivity | specialize (Hk ltac:(lia)); lia]).
+                split; [apply I1; exact P|]. split; [exact R260|]. split; [lia|].
+                exists 0%nat. split; [fold off in Ek; fold off; lia|]. split; [lia | lia]. }
+              apply IH in H; try assumption; try lia.
               ** destruct H as (I2 & X2). split; [eapply inv_trans; eauto|].
                  destruct x as [[nx d]|e]; [exact X2|]. destruct e; auto. intros P Lm. apply X2; [apply I1; exact P|].
-                 rewrite (inv_limit _ _ I1). exact Lm.
+                 rewrite Hl1. exact Lm.
               ** rewrite (inv_recs st _ _ I1). exact L.
         -- cbn [run] in H. inv H. split; [exact I1 | exact I].
 Qed.
@@ -593,8 +626,11 @@ Proof.
     rewrite A, Z. exact H.
 Qed.
 
+(* either every record fits the one-byte offset, or only transient codes are injected *)
+Definition short_recs (recs : list (list N)) : Prop := forall r, In r recs -> (length r <= 256)%nat.
+
 Lemma get_sdr_run st rid resv s x s' tr :
-  Forall wf_rec (recs_of st s) -> (forall r, In r (recs_of st s) -> (length r <= 256)%nat) -> rid < 65536 ->
+  Forall wf_rec (recs_of st s) -> short_recs (recs_of st s) \/ plan_ok s -> rid < 65536 ->
   run (get_sdr st rid resv) sdr_dev s [] = (x, s', tr) ->
   inv s s' /\
   match x with
@@ -647,7 +683,9 @@ Proof.
     + destruct X2 as (-> & ->). rewrite (w16_small _ Hnx0). exact L.
     + destruct e; auto. intros P Lm. apply X2; [apply I01; exact P | rewrite (inv_limit _ _ I01); exact Lm].
   - rewrite (inv_recs st _ _ I01), (w16_small _ Hid). exact Lown.
-  - apply R256. exact Hin.
+  - destruct R256 as [R256|P]; [left; apply R256; exact Hin|]. right.
+    split; [apply I01; exact P|]. split; [cbn [length]; lia|]. split; [lia|].
+    exists 0%nat. cbn [length]. split; [lia|]. split; lia.
   - reflexivity.
   - cbn [length]. lia.
   - cbn [length]. lia.
@@ -661,8 +699,7 @@ Fixpoint annot (recs : list (list N)) : list (N * list N) :=
 
 Definition wf_store (recs : list (list N)) : Prop :=
   Forall wf_rec recs /\ NoDup (map rec_id recs) /\
-  Forall (fun r => rec_id r <> 0 /\ rec_id r <> 0xFFFF) recs /\
-  (forall r, In r recs -> (length r <= 256)%nat).
+  Forall (fun r => rec_id r <> 0 /\ rec_id r <> 0xFFFF) recs.
 
 Lemma find_rec_mid done : forall r rest,
   ~ In (rec_id r) (map rec_id done) ->
@@ -686,7 +723,7 @@ Lemma annot_app done : forall r rest, annot (done ++ r :: rest) = annot (done ++
 Proof. trivial. Qed.
 
 Lemma entries_run fuel st resv (recs : list (list N)) : forall done r rest rid acc s tr x s' tr',
-  recs = done ++ r :: rest -> wf_store recs -> recs_of st s = recs ->
+  recs = done ++ r :: rest -> wf_store recs -> short_recs recs \/ plan_ok s -> recs_of st s = recs ->
   lookup recs rid = Some (r, next_id rest) -> rid < 65536 ->
   acc ++ annot (r :: rest) = annot recs ->
   (length (r :: rest) <= fuel)%nat ->
@@ -698,14 +735,14 @@ Lemma entries_run fuel st resv (recs : list (list N)) : forall done r rest rid a
   | Err _ => True
   end.
 Proof.
-  induction fuel as [|fuel IH]; intros done r rest rid acc s tr x s' tr' Hrecs W Hs L Hrid Hacc Hfuel H;
+  induction fuel as [|fuel IH]; intros done r rest rid acc s tr x s' tr' Hrecs W Hsp Hs L Hrid Hacc Hfuel H;
     cbn [length] in Hfuel; [lia|].
   cbn [entries_loop] in H. rewrite run_bind in H.
   destruct (run (get_sdr st rid (Some resv)) sdr_dev s tr) as [[x1 s1] tr1] eqn:R1.
   assert (exists trx, run (get_sdr st rid (Some resv)) sdr_dev s [] = (x1, s1, trx)) as (trx & R1').
   { eapply run_tr_indep. exact R1. }
-  destruct W as (Wf & ND & Wid & W256).
-  apply get_sdr_run in R1'; [| rewrite Hs; exact Wf | rewrite Hs; exact W256 | exact Hrid].
+  destruct W as (Wf & ND & Wid).
+  apply get_sdr_run in R1'; [| rewrite Hs; exact Wf | rewrite Hs; exact Hsp | exact Hrid].
   destruct R1' as (I1 & X1). destruct x1 as [[nx data]|e].
   2:{ inv H. split; [exact I1|]. destruct e; auto. }
   rewrite Hs, L in X1. inv X1.
@@ -724,6 +761,7 @@ Proof.
       destruct e; auto. intros P Lm. apply X2; [apply I1; exact P | rewrite (inv_limit _ _ I1); exact Lm].
     + rewrite <- app_assoc. reflexivity.
     + repeat split; assumption.
+    + destruct Hsp as [Hsp|Hsp]; [left; exact Hsp | right; apply I1; exact Hsp].
     + rewrite (inv_recs st _ _ I1). exact Hs.
     + change (done ++ data :: r' :: rest') with (done ++ [data] ++ r' :: rest'). rewrite app_assoc.
       apply lookup_mid; [rewrite <- app_assoc; exact ND | exact Hr0].
@@ -733,7 +771,8 @@ Proof.
 Qed.
 
 Lemma sdr_entries_run fuel st s x s' tr :
-  wf_store (recs_of st s) -> recs_of st s <> [] -> (length (recs_of st s) <= fuel)%nat ->
+  wf_store (recs_of st s) -> short_recs (recs_of st s) \/ plan_ok s ->
+  recs_of st s <> [] -> (length (recs_of st s) <= fuel)%nat ->
   run (sdr_entries fuel st) sdr_dev s [] = (x, s', tr) ->
   match x with
   | Ok l => l = annot (recs_of st s)
@@ -741,22 +780,27 @@ Lemma sdr_entries_run fuel st s x s' tr :
   | Err _ => True
   end.
 Proof.
-  intros W Hne Hfuel H. unfold sdr_entries in H. rewrite run_bind in H.
+  intros W Hsp Hne Hfuel H. unfold sdr_entries in H. rewrite run_bind in H.
   destruct (run (reserve st) sdr_dev s []) as [[x0 s0] tr0] eqn:R0. apply reserve_run in R0. destruct R0 as (I0 & _ & NF).
   destruct x0 as [resv|e]; [|inv H; destruct e; auto; congruence].
   destruct (recs_of st s) as [|r rest] eqn:Hs; [congruence|].
   eapply (entries_run fuel st resv (r :: rest) [] r rest) in H; try reflexivity; try assumption.
   - destruct H as (_ & X). destruct x as [l|e]; [exact X|]. destruct e; auto. intros P Lm. apply X; [apply I0; exact P|].
     rewrite (inv_limit _ _ I0). exact Lm.
+  - destruct Hsp as [Hsp|Hsp]; [left; exact Hsp | right; apply I0; exact Hsp].
   - rewrite (inv_recs st _ _ I0). exact Hs.
 Qed.
 
 (* ------------------------------------------------------------------------- *)
 (* statements used by Props/C11.v                                             *)
 (* ------------------------------------------------------------------------- *)
-Definition short_recs (recs : list (list N)) : Prop := forall r, In r recs -> (length r <= 256)%nat.
-
 Lemma exact_or_error st s rid resv nx data s' tr :
+  Forall wf_rec (recs_of st s) -> plan_ok s -> rid < 65536 ->
+  run (get_sdr st rid resv) sdr_dev s [] = (Ok (nx, data), s', tr) ->
+  lookup (recs_of st s) rid = Some (data, nx).
+Proof. intros W P Hr H. apply get_sdr_run in H; auto. destruct H as (_ & X). exact X. Qed.
+
+Lemma exact_or_error_any_codes st s rid resv nx data s' tr :
   Forall wf_rec (recs_of st s) -> short_recs (recs_of st s) -> rid < 65536 ->
   run (get_sdr st rid resv) sdr_dev s [] = (Ok (nx, data), s', tr) ->
   lookup (recs_of st s) rid = Some (data, nx).
@@ -766,17 +810,25 @@ Lemma map_snd_annot recs : map snd (annot recs) = recs.
 Proof. induction recs as [|r rest IH]; cbn; [reflexivity | rewrite IH; reflexivity]. Qed.
 
 Lemma list_complete fuel st s l s' tr :
-  wf_store (recs_of st s) -> recs_of st s <> [] -> (length (recs_of st s) <= fuel)%nat ->
+  wf_store (recs_of st s) -> plan_ok s -> recs_of st s <> [] -> (length (recs_of st s) <= fuel)%nat ->
   run (sdr_entries fuel st) sdr_dev s [] = (Ok l, s', tr) ->
   l = annot (recs_of st s) /\ map snd l = recs_of st s.
 Proof.
-  intros W Hne Hf H. apply sdr_entries_run in H; auto. split; [exact H|]. subst l. apply map_snd_annot.
+  intros W P Hne Hf H. apply sdr_entries_run in H; auto. split; [exact H|]. subst l. apply map_snd_annot.
+Qed.
+
+Lemma list_complete_any_codes fuel st s l s' tr :
+  wf_store (recs_of st s) -> short_recs (recs_of st s) -> recs_of st s <> [] -> (length (recs_of st s) <= fuel)%nat ->
+  run (sdr_entries fuel st) sdr_dev s [] = (Ok l, s', tr) ->
+  l = annot (recs_of st s) /\ map snd l = recs_of st s.
+Proof.
+  intros W R Hne Hf H. apply sdr_entries_run in H; auto. split; [exact H|]. subst l. apply map_snd_annot.
 Qed.
 
 Lemma no_fuel_get st s rid resv x s' tr :
-  Forall wf_rec (recs_of st s) -> short_recs (recs_of st s) -> rid < 65536 -> plan_ok s -> 4 <= s_limit s ->
+  Forall wf_rec (recs_of st s) -> rid < 65536 -> plan_ok s -> 4 <= s_limit s ->
   run (get_sdr st rid resv) sdr_dev s [] = (x, s', tr) -> x <> Err OutOfFuel.
-Proof. intros W R Hr P L H. apply get_sdr_run in H; auto. destruct H as (_ & X). intros ->. exact (X P L). Qed.
+Proof. intros W Hr P L H. apply get_sdr_run in H; auto. destruct H as (_ & X). intros ->. exact (X P L). Qed.
 
 Lemma no_fuel_list fuel st s x s' tr :
   wf_store (recs_of st s) -> recs_of st s <> [] -> (length (recs_of st s) <= fuel)%nat -> plan_ok s -> 4 <= s_limit s ->
@@ -792,11 +844,10 @@ Lemma example_read :
   /\ wf_store (s_repo s) /\ plan_ok s /\ 4 <= s_limit s.
 Proof.
   split; [vm_compute; reflexivity|]. split; [|split].
-  - unfold wf_store, wf_rec, example_state. cbn. split; [|split; [|split]].
+  - unfold wf_store, wf_rec, example_state. cbn. split; [|split].
     + repeat constructor; cbn; lia.
     + repeat constructor; cbn; intuition discriminate.
     + repeat constructor; cbn; discriminate.
-    + intros r [<-|[<-|[]]]; cbn; lia.
   - unfold plan_ok. cbn. repeat constructor; cbn; auto.
   - cbn. lia.
 Qed.
@@ -883,4 +934,23 @@ Proof.
       * rewrite !w16_small; auto. rewrite w16_small; auto.
     + split; [unfold s2; destruct st; cbn; exact P|]. split; [unfold same_content, s2; destruct st; cbn; tauto|].
       unfold s2; destruct st; reflexivity.
+Qed.
+
+(* Why [plan_ok] is needed for records longer than 256 bytes: a device that refuses ONE
+   20-byte read with 0xCA after having accepted three of them (an inconsistent limit) steers
+   the reads to offset 5 + 3*20 + 12*16 = 257, which the one-byte offset field turns into 1:
+   the 260-byte record comes back with its last three bytes replaced. *)
+Definition long_rec : list N := [2; 1; 0x51; 0xC1; 255] ++ map (fun i => N.of_nat i mod 251) (seq 5 255).
+Definition inconsistent_state : sdr_state :=
+  mkSdr [long_rec] [] 255 0x10 false 0x20 false [FNone; FNone; FNone; FNone; FNone; FCode CC_CANT_RET_NUM_REQ_BYTES].
+Lemma inconsistent_limit_alters :
+  let s := inconsistent_state in
+  Forall wf_rec (recs_of Repo s) /\ 4 <= s_limit s /\
+  exists nx data, fst (fst (run (get_sdr Repo 0x0102 None) sdr_dev s [])) = Ok (nx, data) /\
+                  lookup (recs_of Repo s) 0x0102 <> Some (data, nx).
+Proof.
+  split; [|split].
+  - constructor; [|constructor]. unfold wf_rec. split; [vm_compute; reflexivity|]. split; [vm_compute; lia | vm_compute; reflexivity].
+  - vm_compute. discriminate.
+  - eexists. eexists. split; [vm_compute; reflexivity|]. vm_compute. intros H. inv H.
 Qed.
